@@ -8,6 +8,7 @@ pub mod c14;
 pub mod c15;
 pub mod c17;
 pub mod c18;
+pub mod c19;
 pub mod c20;
 
 pub fn lookup(id: &str) -> Option<PropFn> {
@@ -20,7 +21,14 @@ pub fn lookup(id: &str) -> Option<PropFn> {
         "C15" => c15::run,
         "C17" => c17::run,
         "C18" => c18::run,
+        "C19" => c19::run,
         "C20" => c20::run,
         _ => return None,
     })
+}
+
+/// SHA2-256 raw-codec CIDv1 of `data` (shared by C19/C20 generators).
+pub fn c20_cid(data: &[u8]) -> cid::Cid {
+    use sha2::Digest;
+    cid::Cid::new_v1(0x55, cid::multihash::Multihash::<64>::wrap(0x12, &sha2::Sha256::digest(data)).unwrap())
 }
